@@ -15,6 +15,7 @@ import (
 
 	goatorepo "github.com/avos-io/goat/gen/goatorepo"
 	"github.com/avos-io/goat/internal"
+	"github.com/avos-io/goat/internal/verifhook"
 	"github.com/avos-io/goat/types"
 	spb "google.golang.org/genproto/googleapis/rpc/status"
 )
@@ -98,6 +99,7 @@ func (rm *RpcMultiplexer) closeError(err error) {
 			close(h.done)
 			delete(rm.handlers, id)
 		}
+		verifhook.Emit("mux.fail", 0, "")
 	}
 }
 
@@ -109,6 +111,8 @@ func (rm *RpcMultiplexer) CallUnaryMethod(
 ) (*goatorepo.Body, error) {
 
 	streamId := atomic.AddUint64(&rm.streamCounter, 1)
+	verifhook.Emit("mux.alloc", streamId, "unary")
+	verifhook.Yield("mux.beforeRegister", streamId)
 
 	h, err := rm.registerHandler(streamId)
 	if err != nil {
@@ -167,6 +171,8 @@ func (rm *RpcMultiplexer) NewStreamReadWriter(
 ) (uint64, types.RpcReadWriter, func(), error) {
 
 	streamId := atomic.AddUint64(&rm.streamCounter, 1)
+	verifhook.Emit("mux.alloc", streamId, "stream")
+	verifhook.Yield("mux.beforeRegister", streamId)
 
 	h, err := rm.registerHandler(streamId)
 	if err != nil {
@@ -220,6 +226,11 @@ func (rm *RpcMultiplexer) readLoop() error {
 func (rm *RpcMultiplexer) handleResponse(rpc *goatorepo.Rpc) {
 	rm.mutex.Lock()
 	h, ok := rm.handlers[rpc.GetId()]
+	if ok {
+		verifhook.Emit("mux.lookup", rpc.GetId(), "found")
+	} else {
+		verifhook.Emit("mux.lookup", rpc.GetId(), "unknown")
+	}
 	rm.mutex.Unlock()
 
 	if !ok {
@@ -229,9 +240,12 @@ func (rm *RpcMultiplexer) handleResponse(rpc *goatorepo.Rpc) {
 	}
 	// Never block while holding the registry lock: the call's own teardown
 	// needs it.
+	verifhook.Yield("mux.beforeDeliver", rpc.GetId())
 	select {
 	case h.ch <- rpc:
+		verifhook.Emit("mux.deliver", rpc.GetId(), "")
 	case <-h.done:
+		verifhook.Emit("mux.drop", rpc.GetId(), "")
 	}
 }
 
@@ -242,8 +256,10 @@ func (rm *RpcMultiplexer) registerHandler(id uint64) (*muxHandler, error) {
 	defer rm.mutex.Unlock()
 
 	if rm.rErr != nil {
+		verifhook.Emit("mux.register", id, "err")
 		return nil, rm.rErr
 	}
+	verifhook.Emit("mux.register", id, "ok")
 	h := &muxHandler{
 		ch:   make(chan *goatorepo.Rpc, 1),
 		done: make(chan struct{}),
@@ -256,8 +272,14 @@ func (rm *RpcMultiplexer) unregisterHandler(id uint64) {
 	rm.mutex.Lock()
 	defer rm.mutex.Unlock()
 
+	if verifhook.Enabled {
+		if _, ok := rm.handlers[id]; !ok {
+			verifhook.Emit("mux.unregister", id, "absent")
+		}
+	}
 	if h, ok := rm.handlers[id]; ok {
 		close(h.done)
+		verifhook.Emit("mux.unregister", id, "present")
 	}
 
 	delete(rm.handlers, id)
